@@ -292,25 +292,28 @@ def accOf (cs : List Command) (w : World) (c : Command) : Acc := accumulate (kOf
 
 /-- the decision of `inputsAvailable` for command `c` in world `w` -/
 def decisionOf (cs : List Command) (w : World) (c : Command) : Outcome :=
-  inputsAvailable {} (kOf w c) (accOf cs w c) ((w.cmdDb c.name).map (·.value)) (c.outs.map w.info)
+  inputsAvailable {} (kOf w c) (accOf cs w c) ((priorRow w c).map (·.value)) (c.outs.map w.info)
 
 def didOfValue (c : Command) (v : BuildValue) : Did :=
   if v.kind == .successfulCommand then (if c.phony then .phony else .updated) else .skipped
 
-def setCmd (w : World) (c : Command) (r : CmdResult) : World := { w with cmdDb := upd w.cmdDb c.name (some r) }
+/-- store the result of the task of `c`, and the dependency list it recorded (`ok`: after a successful execution) -/
+def setCmd (w : World) (c : Command) (r : CmdResult) (ok : Bool := false) : World :=
+  { w with cmdDb := upd w.cmdDb c.name (some r),
+           depDb := upd w.depDb c.name (if ok then storedDeps c else requestedDeps c) }
 
 theorem runTask_complete {m : Manifest} {before : List Command} {E : Nat} {c : Command} {w : World} {v : BuildValue}
     {force : Bool} (h : decisionOf m.cmds w c = .complete v force) :
     runTask m before E c w =
-      (setCmd w c (completeCmd E (w.cmdDb c.name) v force c.outs.length), didOfValue c v) := by
+      (setCmd w c (completeCmd E (w.cmdDb c.name) v force c.outs.length (sigOf c)), didOfValue c v) := by
   simp only [decisionOf, kOf, accOf, insOf] at h
-  simp only [runTask, h, setCmd, didOfValue]
+  simp only [runTask, h, setCmd, didOfValue, Bool.false_eq_true, ↓reduceIte]
 
 theorem runTask_fail {m : Manifest} {before : List Command} {E : Nat} {c : Command} {w : World}
     (h : decisionOf m.cmds w c = .execute) (hf : w.failing c.name = true) :
-    runTask m before E c w = (setCmd w c (completeCmd E (w.cmdDb c.name) .failed true c.outs.length), .failed) := by
+    runTask m before E c w = (setCmd w c (completeCmd E (w.cmdDb c.name) .failed true c.outs.length (sigOf c)), .failed) := by
   simp only [decisionOf, kOf, accOf, insOf] at h
-  simp only [runTask, h, hf, setCmd, afterExecute, ↓reduceIte, Bool.not_false]
+  simp only [runTask, h, hf, setCmd, afterExecute, ↓reduceIte, Bool.not_false, Bool.false_eq_true]
 
 /-- the world after the outputs of `c` have been written -/
 def written (m : Manifest) (before : List Command) (c : Command) (w : World) : World :=
@@ -321,7 +324,8 @@ theorem runTask_exec {m : Manifest} {before : List Command} {E : Nat} {c : Comma
     (h : decisionOf m.cmds w c = .execute) (hf : w.failing c.name = false) :
     runTask m before E c w =
       (setCmd (written m before c w) c
-        (completeCmd E (w.cmdDb c.name) (computeResult (kOf w c) (c.outs.map (written m before c w).info)) (!c.restat) c.outs.length),
+        (completeCmd E (w.cmdDb c.name) (computeResult (kOf w c) (c.outs.map (written m before c w).info)) (!c.restat) c.outs.length (sigOf c))
+        true,
        .executed) := by
   simp only [decisionOf, kOf, accOf, insOf] at h
   simp only [runTask, h, hf, setCmd, afterExecute, written, forceIsNotRestat, kOf, Bool.false_eq_true, ↓reduceIte,
@@ -344,6 +348,42 @@ theorem triggers_storedDeps (c : Command) (ch : Path → Bool) :
   cases hd : c.hasDeps <;> simp [List.any_map, Function.comp_def, List.filterMap_map, hf]
 
 
+/-- the stored dependency list of `c` is the one its current statement records.  True of every stored result that the
+scan can accept (successful, built with the current command line) as long as the statement's input lists have not been
+edited since the result was stored (graph edits) -/
+def DepsRec (w : World) (c : Command) : Prop :=
+  ∀ r, w.cmdDb c.name = some r → r.sig = sigOf c → r.value.kind = .successfulCommand →
+    (c.generator = true ∨ r.value.hash = w.cmdline c.name) → w.depDb c.name = storedDeps c
+
+/-- the scan with the dependency list recomputed from the statement -/
+def needsTaskS (cs : List Command) (w : World) (c : Command) : Bool :=
+  match w.cmdDb c.name with
+  | none => true
+  | some r =>
+    r.sig != sigOf c ||
+    commandIsResultValid (c.cmd (w.cmdline c.name)) r.value (c.outs.map w.info) != .valid ||
+    triggersRerun (storedDeps c) (fun k => rebuiltSince r.builtAt (resOf cs w k))
+
+theorem needsTask_static {cs : List Command} {w : World} {c : Command} (h : DepsRec w c) :
+    needsTask cs w c = needsTaskS cs w c := by
+  unfold needsTask needsTaskS
+  cases hr : w.cmdDb c.name with
+  | none => rfl
+  | some r =>
+    simp only
+    by_cases hs : r.sig = sigOf c
+    · cases hv : commandIsResultValid (c.cmd (w.cmdline c.name)) r.value (c.outs.map w.info) with
+      | valid =>
+        obtain ⟨h1, h2, _⟩ := (C18_valid_iff _ _ _).1 hv
+        rw [h r hr hs h1 h2]
+      | invalid => simp [Bool.or_true, show (VR.invalid != VR.valid) = true from rfl]
+      | oob => simp [show (VR.oob != VR.valid) = true from rfl]
+    · have : (r.sig != sigOf c) = true := by simpa using hs
+      simp [this]
+
+theorem requestedDeps_of_noDeps {c : Command} (h : c.hasDeps = false) : requestedDeps c = storedDeps c := by
+  simp [requestedDeps, storedDeps, dependencyList, discovered, h, Command.cmd]
+
 /-! ### frame of one step -/
 
 /-- what processing command `c` may change -/
@@ -355,12 +395,14 @@ structure Frame (c : Command) (w w' : World) : Prop where
   srcDb : w'.srcDb = w.srcDb
   cmdDb : ∀ n, n ≠ c.name → w'.cmdDb n = w.cmdDb n
   epoch : w'.epoch = w.epoch
+  depDb : ∀ n, n ≠ c.name → w'.depDb n = w.depDb n
 
 theorem Frame.refl (c : Command) (w : World) : Frame c w w :=
-  ⟨fun _ _ => rfl, Nat.le_refl _, rfl, rfl, rfl, fun _ _ => rfl, rfl⟩
+  ⟨fun _ _ => rfl, Nat.le_refl _, rfl, rfl, rfl, fun _ _ => rfl, rfl, fun _ _ => rfl⟩
 
-theorem setCmd_frame (w : World) (c : Command) (r : CmdResult) : Frame c w (setCmd w c r) :=
-  ⟨fun _ _ => rfl, Nat.le_refl _, rfl, rfl, rfl, fun n hn => by simp [setCmd, upd, hn], rfl⟩
+theorem setCmd_frame (w : World) (c : Command) (r : CmdResult) {ok : Bool} : Frame c w (setCmd w c r ok) :=
+  ⟨fun _ _ => rfl, Nat.le_refl _, rfl, rfl, rfl, fun n hn => by simp [setCmd, upd, hn], rfl,
+   fun n hn => by simp [setCmd, upd, hn]⟩
 
 theorem written_files_other (m : Manifest) (before : List Command) (c : Command) (w : World) {p : Path} (hp : p ∉ c.outs) :
     (written m before c w).files p = w.files p := by
@@ -379,10 +421,11 @@ theorem written_clock (m : Manifest) (before : List Command) (c : Command) (w : 
 theorem Frame.trans {c : Command} {w1 w2 w3 : World} (h1 : Frame c w1 w2) (h2 : Frame c w2 w3) : Frame c w1 w3 :=
   ⟨fun p hp => (h2.files p hp).trans (h1.files p hp), Nat.le_trans h1.clock h2.clock, h2.failing.trans h1.failing,
    h2.cmdline.trans h1.cmdline, h2.srcDb.trans h1.srcDb, fun n hn => (h2.cmdDb n hn).trans (h1.cmdDb n hn),
-   h2.epoch.trans h1.epoch⟩
+   h2.epoch.trans h1.epoch, fun n hn => (h2.depDb n hn).trans (h1.depDb n hn)⟩
 
 theorem written_frame (m : Manifest) (before : List Command) (c : Command) (w : World) : Frame c w (written m before c w) :=
-  ⟨fun _ hp => written_files_other m before c w hp, written_clock m before c w, rfl, rfl, rfl, fun _ _ => rfl, rfl⟩
+  ⟨fun _ hp => written_files_other m before c w hp, written_clock m before c w, rfl, rfl, rfl, fun _ _ => rfl, rfl,
+   fun _ _ => rfl⟩
 
 theorem runTask_frame (m : Manifest) (before : List Command) (E : Nat) (c : Command) (w : World) :
     Frame c w (runTask m before E c w).1 := by
@@ -432,12 +475,13 @@ structure SameUpToBuiltAt (w w' : World) : Prop where
   cmdline : w'.cmdline = w.cmdline
   cmdDb : w'.cmdDb = w.cmdDb
   srcDb : ∀ p, (w'.srcDb p).map (fun r => (r.value, r.computedAt)) = (w.srcDb p).map (fun r => (r.value, r.computedAt))
+  depDb : w'.depDb = w.depDb
 
-theorem SameUpToBuiltAt.refl (w : World) : SameUpToBuiltAt w w := ⟨rfl, rfl, rfl, rfl, rfl, fun _ => rfl⟩
+theorem SameUpToBuiltAt.refl (w : World) : SameUpToBuiltAt w w := ⟨rfl, rfl, rfl, rfl, rfl, fun _ => rfl, rfl⟩
 
 theorem SameUpToBuiltAt.trans {a b c : World} (h1 : SameUpToBuiltAt a b) (h2 : SameUpToBuiltAt b c) : SameUpToBuiltAt a c :=
   ⟨h2.files.trans h1.files, h2.clock.trans h1.clock, h2.failing.trans h1.failing, h2.cmdline.trans h1.cmdline,
-   h2.cmdDb.trans h1.cmdDb, fun p => (h2.srcDb p).trans (h1.srcDb p)⟩
+   h2.cmdDb.trans h1.cmdDb, fun p => (h2.srcDb p).trans (h1.srcDb p), h2.depDb.trans h1.depDb⟩
 
 theorem SameUpToBuiltAt.info {w w' : World} (h : SameUpToBuiltAt w w') (p : Path) : w'.info p = w.info p := by
   simp only [World.info, h.files]
@@ -457,7 +501,7 @@ theorem rebuiltSince_congr {b : Nat} {x y : Option Result}
 theorem SameUpToBuiltAt.needsTask {cs : List Command} {w w' : World} (h : SameUpToBuiltAt w w') (c : Command) :
     needsTask cs w' c = needsTask cs w c := by
   unfold LLBuild.NinjaWorld.needsTask
-  rw [h.cmdDb, h.cmdline]
+  rw [h.cmdDb, h.cmdline, h.depDb]
   cases w.cmdDb c.name with
   | none => rfl
   | some r =>
@@ -481,7 +525,7 @@ theorem refreshSrc_settled (E : Nat) (p : Path) (w : World) (h : SrcSettled w p)
   · rename_i hinv
     rcases hv with hv | ⟨hv, hm⟩
     · exact absurd hv hinv
-    · refine ⟨rfl, rfl, rfl, rfl, rfl, fun q => ?_⟩
+    · refine ⟨rfl, rfl, rfl, rfl, rfl, fun q => ?_, rfl⟩
       by_cases hq : q = p
       · subst hq
         simp [upd, hr, completeWith, hv, inputValue, hm]
@@ -543,14 +587,15 @@ theorem stepAll_quiet (m : Manifest) (d : List Path) (E : Nat) : ∀ (rest befor
 /-- a build in a world where every demanded source has an up-to-date input rule and no needed command needs its
 task runs nothing and changes nothing but the epoch and the `builtAt` marks of input rules -/
 theorem quiet_build (m : Manifest) (targets : List Path) (w : World)
-    (hsrc : ∀ p ∈ demanded m targets, producer m.cmds p = none → SrcSettled w p)
+    (hsrc : ∀ p ∈ demanded m targets ++ storedKeys m (demanded m targets) w, producer m.cmds p = none → SrcSettled w p)
     (hcmd : ∀ c ∈ m.cmds, c.neededIn (demanded m targets) = true → needsTask m.cmds w c = false) :
     (buildFull m targets w).2 = [] ∧ SameUpToBuiltAt w (buildFull m targets w).1 := by
-  have h0 : SameUpToBuiltAt w { w with epoch := w.epoch + 1 } := ⟨rfl, rfl, rfl, rfl, rfl, fun _ => rfl⟩
-  have h1 := refreshSrcs_settled m.cmds (w.epoch + 1) (demanded m targets) { w with epoch := w.epoch + 1 } hsrc
+  have h0 : SameUpToBuiltAt w { w with epoch := w.epoch + 1 } := ⟨rfl, rfl, rfl, rfl, rfl, fun _ => rfl, rfl⟩
+  have h1 := refreshSrcs_settled m.cmds (w.epoch + 1) (demanded m targets ++ storedKeys m (demanded m targets) w)
+    { w with epoch := w.epoch + 1 } hsrc
   have h2 := h0.trans h1
   have := stepAll_quiet m (demanded m targets) (w.epoch + 1) m.cmds []
-    (refreshSrcs m.cmds (w.epoch + 1) (demanded m targets) { w with epoch := w.epoch + 1 })
+    (refreshSrcs m.cmds (w.epoch + 1) (demanded m targets ++ storedKeys m (demanded m targets) w) { w with epoch := w.epoch + 1 })
     (fun c hc hn => by rw [h2.needsTask]; exact hcmd c hc hn)
   simp only [buildFull, this]
   exact ⟨trivial, h2⟩
@@ -592,17 +637,45 @@ theorem completeWith_computedAt (E : Nat) (prior : Option Result) (v : BuildValu
       exact Or.inr ⟨r, rfl, h.1, h.2, rfl⟩
     · exact Or.inl rfl
 
-@[simp] theorem completeCmd_value (E : Nat) (prior : Option CmdResult) (v : BuildValue) (force : Bool) (n : Nat) :
-    (completeCmd E prior v force n).value = v := by
+@[simp] theorem completeCmd_value (E : Nat) (prior : Option CmdResult) (v : BuildValue) (force : Bool) (n : Nat) (sg : Sig) :
+    (completeCmd E prior v force n sg).value = v := by
   simp [completeCmd, completeWith_value]
 
-@[simp] theorem completeCmd_builtAt (E : Nat) (prior : Option CmdResult) (v : BuildValue) (force : Bool) (n : Nat) :
-    (completeCmd E prior v force n).builtAt = E := by
+@[simp] theorem completeCmd_builtAt (E : Nat) (prior : Option CmdResult) (v : BuildValue) (force : Bool) (n : Nat) (sg : Sig) :
+    (completeCmd E prior v force n sg).builtAt = E := by
   simp [completeCmd, completeWith_builtAt]
 
-theorem completeCmd_computedAt (E : Nat) (prior : Option CmdResult) (v : BuildValue) (force : Bool) (n : Nat) :
-    (completeCmd E prior v force n).computedAt = E ∨
-    ∃ r, prior = some r ∧ force = false ∧ v = r.value ∧ (completeCmd E prior v force n).computedAt = r.computedAt := by
+@[simp] theorem completeCmd_sig (E : Nat) (prior : Option CmdResult) (v : BuildValue) (force : Bool) (n : Nat) (sg : Sig) :
+    (completeCmd E prior v force n sg).sig = sg := rfl
+
+theorem priorRow_some {w : World} {c : Command} {r : CmdResult} :
+    priorRow w c = some r ↔ w.cmdDb c.name = some r ∧ r.sig = sigOf c := by
+  unfold priorRow
+  cases h : w.cmdDb c.name with
+  | none => simp
+  | some x =>
+    simp only [Option.filter_some, beq_iff_eq]
+    by_cases hx : x.sig = sigOf c
+    · simp only [hx, ↓reduceIte, Option.some.injEq]
+      constructor
+      · rintro rfl; exact ⟨rfl, hx⟩
+      · rintro ⟨rfl, _⟩; rfl
+    · simp only [hx, ↓reduceIte, Option.some.injEq]
+      constructor
+      · intro h'; cases h'
+      · rintro ⟨rfl, h2⟩; exact absurd h2 hx
+
+theorem priorRow_live {w : World} {c : Command} {r : CmdResult} (h : w.cmdDb c.name = some r) (hs : r.sig = sigOf c) :
+    priorRow w c = some r := priorRow_some.2 ⟨h, hs⟩
+
+theorem priorRow_none_of_stale {w : World} {c : Command} (h : ∀ r, w.cmdDb c.name = some r → r.sig ≠ sigOf c) : priorRow w c = none := by
+  cases hp : priorRow w c with
+  | none => rfl
+  | some r => exact absurd (priorRow_some.1 hp).2 (h r (priorRow_some.1 hp).1)
+
+theorem completeCmd_computedAt (E : Nat) (prior : Option CmdResult) (v : BuildValue) (force : Bool) (n : Nat) (sg : Sig) :
+    (completeCmd E prior v force n sg).computedAt = E ∨
+    ∃ r, prior = some r ∧ force = false ∧ v = r.value ∧ (completeCmd E prior v force n sg).computedAt = r.computedAt := by
   rcases completeWith_computedAt E (prior.map (·.toResult)) v force with h | ⟨r, h1, h2, h3, h4⟩
   · exact Or.inl (by simpa [completeCmd] using h)
   · cases prior with
@@ -719,8 +792,8 @@ theorem getD_le {l : List Nat} {i d b : Nat} (hl : ∀ e ∈ l, e ≤ b) (hd : d
 
 theorem Inv0.set_cmd {cs : List Command} {w : World} (h : Inv0 cs w) (hwf : wfFrom [] cs = true) {c : Command} (hc : c ∈ cs)
     (v : BuildValue) (force : Bool) (hst : ∀ i ∈ v.infos, i.mtime.sec ≤ w.clock)
-    (hsh : (v.kind = .successfulCommand → v.infos.length = c.outs.length) ∧ v.kind ∈ okKinds) :
-    Inv0 cs (setCmd w c (completeCmd w.epoch (w.cmdDb c.name) v force c.outs.length)) := by
+    (hsh : (v.kind = .successfulCommand → v.infos.length = c.outs.length) ∧ v.kind ∈ okKinds) {ok : Bool} {sg : Sig} :
+    Inv0 cs (setCmd w c (completeCmd w.epoch (w.cmdDb c.name) v force c.outs.length sg) ok) := by
   refine ⟨h.fileStamps, h.srcStamps, ?_, h.srcEpoch, ?_, ?_, h.phonyAbsent⟩
   · intro n r hr i hi
     by_cases hn : n = c.name
@@ -737,7 +810,7 @@ theorem Inv0.set_cmd {cs : List Command} {w : World} (h : Inv0 cs w) (hwf : wfFr
       simp only [setCmd, upd_same, Option.some.injEq] at hr
       subst hr
       refine ⟨?_, by simp [setCmd], ?_⟩
-      · rcases completeCmd_computedAt w.epoch (w.cmdDb c.name) v force c.outs.length with h1 | ⟨r, h1, _, _, h4⟩
+      · rcases completeCmd_computedAt w.epoch (w.cmdDb c.name) v force c.outs.length sg with h1 | ⟨r, h1, _, _, h4⟩
         · rw [h1]; exact Nat.le_refl _
         · rw [h4]; exact (h.cmdEpoch _ r h1).1
       · intro e he
@@ -842,7 +915,7 @@ theorem Inv0.run_task {cs : List Command} {w : World} (h : Inv0 cs w) (m : Manif
       rw [runTask_exec hd hf]
       have hw' := h.of_written hwf m hat (decision_execute_not_phony hd)
       have := hw'.set_cmd hwf hat.mem (computeResult (kOf w c) (c.outs.map (written m before c w).info)) (!c.restat)
-        (hinfo _ hw') (computeResult_shape _ _ _ (by simp))
+        (hinfo _ hw') (computeResult_shape _ _ _ (by simp)) (ok := true) (sg := sigOf c)
       simpa [written] using this
 
 
@@ -914,14 +987,14 @@ theorem Inv0.bump {cs : List Command} {w : World} (h : Inv0 cs w) : Inv0 cs { w 
 
 /-- the world in which the commands of a build are processed -/
 def started (m : Manifest) (targets : List Path) (w : World) : World :=
-  refreshSrcs m.cmds (w.epoch + 1) (demanded m targets) { w with epoch := w.epoch + 1 }
+  refreshSrcs m.cmds (w.epoch + 1) (demanded m targets ++ storedKeys m (demanded m targets) w) { w with epoch := w.epoch + 1 }
 
 theorem buildFull_eq (m : Manifest) (targets : List Path) (w : World) :
     buildFull m targets w = stepAll m (demanded m targets) (w.epoch + 1) [] m.cmds (started m targets w) := rfl
 
 theorem Inv0.started {w : World} (m : Manifest) (h : Inv0 m.cmds w) (targets : List Path) :
     Inv0 m.cmds (started m targets w) ∧ (LLBuild.NinjaWorld.started m targets w).epoch = w.epoch + 1 :=
-  h.bump.refresh_srcs (demanded m targets)
+  h.bump.refresh_srcs (demanded m targets ++ storedKeys m (demanded m targets) w)
 
 theorem Inv0.build {w : World} (m : Manifest) (h : Inv0 m.cmds w) (hwf : wfFrom [] m.cmds = true) (targets : List Path) :
     Inv0 m.cmds (buildFull m targets w).1 := by
@@ -1188,12 +1261,17 @@ theorem shortcut_outs_exist {ctx : Ctx} {k : Cmd} {a : Acc} {prior : Option Buil
   simp only [Bool.not_eq_true'] at this
   exact this.1
 
-@[simp] theorem setCmd_cmdDb_self (w : World) (c : Command) (r : CmdResult) : (setCmd w c r).cmdDb c.name = some r := by
+@[simp] theorem setCmd_cmdDb_self (w : World) (c : Command) (r : CmdResult) {ok : Bool} :
+    (setCmd w c r ok).cmdDb c.name = some r := by
   simp [setCmd]
 
-@[simp] theorem setCmd_info (w : World) (c : Command) (r : CmdResult) : (setCmd w c r).info = w.info := rfl
-@[simp] theorem setCmd_files (w : World) (c : Command) (r : CmdResult) : (setCmd w c r).files = w.files := rfl
-@[simp] theorem setCmd_cmdline (w : World) (c : Command) (r : CmdResult) : (setCmd w c r).cmdline = w.cmdline := rfl
+@[simp] theorem setCmd_info (w : World) (c : Command) (r : CmdResult) {ok : Bool} : (setCmd w c r ok).info = w.info := rfl
+@[simp] theorem setCmd_files (w : World) (c : Command) (r : CmdResult) {ok : Bool} : (setCmd w c r ok).files = w.files := rfl
+@[simp] theorem setCmd_cmdline (w : World) (c : Command) (r : CmdResult) {ok : Bool} :
+    (setCmd w c r ok).cmdline = w.cmdline := rfl
+@[simp] theorem setCmd_depDb_self (w : World) (c : Command) (r : CmdResult) {ok : Bool} :
+    (setCmd w c r ok).depDb c.name = if ok then storedDeps c else requestedDeps c := by
+  simp [setCmd]
 
 /-- a task that ran and did not fail or skip leaves a stored result that is valid for the files as they are now, built
 at the current epoch -/
@@ -1239,6 +1317,36 @@ theorem runTask_ok {m : Manifest} {before rest : List Command} {c : Command} {w 
       · simp only [World.info, h1]; exact infoOf_some_not_missing _
 
 
+/-- ... and the dependency list its statement records -/
+theorem runTask_deps {m : Manifest} {before rest : List Command} {c : Command} {w : World} {E : Nat} (hat : At m.cmds before c rest)
+    (hdid : (runTask m before E c w).2 ≠ .failed ∧ (runTask m before E c w).2 ≠ .skipped) :
+    (runTask m before E c w).1.depDb c.name = storedDeps c := by
+  cases hd : decisionOf m.cmds w c with
+  | complete v force =>
+    rw [runTask_complete hd] at hdid ⊢
+    simp only [setCmd_depDb_self, Bool.false_eq_true, ↓reduceIte]
+    apply requestedDeps_of_noDeps
+    have hd' := hd
+    simp only [decisionOf, inputsAvailable_default] at hd'
+    split at hd'
+    · rename_i hp
+      exact (hat.cmdWF.phony hp).2.2.1
+    · split at hd'
+      · rename_i hs
+        cases hdeps : c.hasDeps with
+        | false => rfl
+        | true =>
+          have := C18_deps_never_shortcut {} (kOf w c) (insOf m.cmds w c) ((priorRow w c).map (·.value)) (c.outs.map w.info) hdeps
+          simp only [accOf] at hs
+          rw [this] at hs; cases hs
+      · split at hd'
+        · cases hd'; simp [didOfValue, BuildValue.skipped] at hdid
+        · cases hd'
+  | execute =>
+    cases hf : w.failing c.name with
+    | true => rw [runTask_fail hd hf] at hdid; simp at hdid
+    | false => rw [runTask_exec hd hf]; simp
+
 /-! ### induction over a build, with its log -/
 
 theorem stepAll_induct (m : Manifest) (d : List Path) (E : Nat) (hwf : wfFrom [] m.cmds = true)
@@ -1266,9 +1374,17 @@ theorem any_congr {α : Type} {l : List α} {f g : α → Bool} (h : ∀ x ∈ l
   | cons a l ih =>
     simp only [List.any_cons, h a List.mem_cons_self, ih (fun x hx => h x (List.mem_cons_of_mem _ hx))]
 
+theorem DepsRec.congr {w w' : World} {c : Command} (h : DepsRec w c) (h1 : w'.cmdDb c.name = w.cmdDb c.name)
+    (h2 : w'.depDb c.name = w.depDb c.name) (h3 : w'.cmdline c.name = w.cmdline c.name) : DepsRec w' c := by
+  intro r hr hs hk hh
+  rw [h1] at hr; rw [h3] at hh; rw [h2]
+  exact h r hr hs hk hh
+
 /-- the scan of an earlier command does not see a step on a later one -/
 theorem needsTask_frame_before {cs : List Command} {before rest : List Command} {c q : Command} (hat : At cs before c rest)
-    (hq : q ∈ before) {w w' : World} (hf : Frame c w w') : needsTask cs w' q = needsTask cs w q := by
+    (hq : q ∈ before) {w w' : World} (hf : Frame c w w') (hrec : DepsRec w q) : needsTask cs w' q = needsTask cs w q := by
+  rw [needsTask_static hrec, needsTask_static (hrec.congr (hf.cmdDb q.name (hat.name_ne_before hq))
+    (hf.depDb q.name (hat.name_ne_before hq)) (by rw [hf.cmdline]))]
   obtain ⟨b, r, hatq, _, hcr, _⟩ := hat.of_before hq
   have hout : ∀ o ∈ q.outs, o ∉ c.outs := fun o ho hoc => by
     have := hat.cmdWF.outs_before o hoc
@@ -1278,7 +1394,7 @@ theorem needsTask_frame_before {cs : List Command} {before rest : List Command} 
     have := hatq.cmdWF.ins_rest k hk
     rw [producer_none_iff] at this
     exact this c hcr hkc
-  unfold LLBuild.NinjaWorld.needsTask
+  unfold needsTaskS
   rw [hf.cmdDb q.name (hat.name_ne_before hq), hf.cmdline]
   cases w.cmdDb q.name with
   | none => rfl
@@ -1297,6 +1413,78 @@ theorem needsTask_false_some {cs : List Command} {w : World} {c : Command} (h : 
   cases hr : w.cmdDb c.name with
   | none => rw [hr] at h; cases h
   | some r => exact ⟨r, rfl⟩
+
+/-- every stored dependency list that the scan can use is the one the current statement records -/
+def DepsInv (cs : List Command) (w : World) : Prop := ∀ c ∈ cs, DepsRec w c
+
+/-- a successful value is stored together with the dependency list the statement records -/
+theorem runTask_depsSucc {m : Manifest} {before rest : List Command} {c : Command} {w : World} {E : Nat}
+    (hat : At m.cmds before c rest) : ∀ r, (runTask m before E c w).1.cmdDb c.name = some r → r.value.kind = .successfulCommand →
+    (runTask m before E c w).1.depDb c.name = storedDeps c := by
+  intro r hr hk
+  apply runTask_deps hat
+  cases hd : decisionOf m.cmds w c with
+  | complete v force =>
+    rw [runTask_complete hd] at hr ⊢
+    simp only [setCmd_cmdDb_self, Option.some.injEq] at hr
+    subst hr
+    simp only [completeCmd_value] at hk
+    simp [didOfValue, hk]
+    split <;> simp
+  | execute =>
+    cases hf : w.failing c.name with
+    | true =>
+      rw [runTask_fail hd hf] at hr
+      simp only [setCmd_cmdDb_self, Option.some.injEq] at hr
+      subst hr
+      simp [BuildValue.failed] at hk
+    | false => rw [runTask_exec hd hf]; simp
+
+theorem runTask_depsRec {m : Manifest} {before rest : List Command} {c : Command} {w : World} {E : Nat}
+    (hat : At m.cmds before c rest) : DepsRec (runTask m before E c w).1 c :=
+  fun r hr _ hk _ => runTask_depsSucc hat r hr hk
+
+/-- every successful result stored under the statement's current signature carries the dependency list the statement records -/
+def DepsAll (cs : List Command) (w : World) : Prop :=
+  ∀ c ∈ cs, ∀ r, w.cmdDb c.name = some r → r.sig = sigOf c → r.value.kind = .successfulCommand → w.depDb c.name = storedDeps c
+
+theorem DepsAll.depsInv {cs : List Command} {w : World} (h : DepsAll cs w) : DepsInv cs w :=
+  fun c hc r hr hs hk _ => h c hc r hr hs hk
+
+theorem DepsAll.of_rows {cs : List Command} {w w' : World} (h : DepsAll cs w) (h1 : w'.cmdDb = w.cmdDb) (h2 : w'.depDb = w.depDb) :
+    DepsAll cs w' := fun c hc r hr hs hk => by rw [h1] at hr; rw [h2]; exact h c hc r hr hs hk
+
+theorem DepsAll.step_cmd {m : Manifest} {d : List Path} {E : Nat} {before rest : List Command} {c : Command} {w : World}
+    (hat : At m.cmds before c rest) (h : DepsAll m.cmds w) : DepsAll m.cmds (stepCmd m d E before c w).1 := by
+  intro q hq r hr hs hk
+  have hfr := stepCmd_frame m d E before c w
+  by_cases hn : q.name = c.name
+  · have := name_inj hat.wf hat.mem hq hn
+    subst this
+    unfold stepCmd at hr ⊢
+    split
+    · rename_i hrun
+      simp only [hrun, ↓reduceIte] at hr
+      exact runTask_depsSucc hat r hr hk
+    · rename_i hrun
+      simp only [hrun, Bool.false_eq_true, ↓reduceIte] at hr
+      exact h q hq r hr hs hk
+  · rw [hfr.cmdDb _ hn] at hr
+    rw [hfr.depDb _ hn]
+    exact h q hq r hr hs hk
+
+theorem DepsInv.step_cmd {m : Manifest} {d : List Path} {E : Nat} {before rest : List Command} {c : Command} {w : World}
+    (hat : At m.cmds before c rest) (h : DepsInv m.cmds w) : DepsInv m.cmds (stepCmd m d E before c w).1 := by
+  intro q hq
+  have hfr := stepCmd_frame m d E before c w
+  by_cases hn : q.name = c.name
+  · have := name_inj hat.wf hat.mem hq hn
+    subst this
+    unfold stepCmd
+    split
+    · exact runTask_depsRec hat
+    · exact h q hq
+  · exact (h q hq).congr (hfr.cmdDb _ hn) (hfr.depDb _ hn) (by rw [hfr.cmdline])
 
 /-- the log does not report command `n` as failed or skipped -/
 def OkLog (log : List (Nat × Did)) (n : Nat) : Prop := (n, Did.failed) ∉ log ∧ (n, Did.skipped) ∉ log
@@ -1318,6 +1506,7 @@ structure Progress (m : Manifest) (d : List Path) (E : Nat) (before : List Comma
   epoch : w.epoch = E
   srcs : ∀ p ∈ d, producer m.cmds p = none → ∃ r, w.srcDb p = some r
   has : ∀ q ∈ before, q.neededIn d = true → ∃ r, w.cmdDb q.name = some r
+  deps : DepsInv m.cmds w
   done : ∀ q ∈ before, q.neededIn d = true → OkLog log q.name → needsTask m.cmds w q = false
 
 theorem runTask_some (m : Manifest) (before : List Command) (E : Nat) (c : Command) (w : World) :
@@ -1329,6 +1518,18 @@ theorem runTask_some (m : Manifest) (before : List Command) (E : Nat) (c : Comma
     | true => rw [runTask_fail hd hf]; exact ⟨_, setCmd_cmdDb_self _ _ _⟩
     | false => rw [runTask_exec hd hf]; exact ⟨_, setCmd_cmdDb_self _ _ _⟩
 
+/-- the result a task leaves carries the signature of the statement -/
+theorem runTask_sig (m : Manifest) (before : List Command) (E : Nat) (c : Command) (w : World) :
+    ∀ r, (runTask m before E c w).1.cmdDb c.name = some r → r.sig = sigOf c := by
+  intro r hr
+  cases hd : decisionOf m.cmds w c with
+  | complete v force =>
+    rw [runTask_complete hd, setCmd_cmdDb_self, Option.some.injEq] at hr; subst hr; rfl
+  | execute =>
+    cases hf : w.failing c.name with
+    | true => rw [runTask_fail hd hf, setCmd_cmdDb_self, Option.some.injEq] at hr; subst hr; rfl
+    | false => rw [runTask_exec hd hf, setCmd_cmdDb_self, Option.some.injEq] at hr; subst hr; rfl
+
 theorem Progress.step {m : Manifest} {targets : List Path} {E : Nat} (hwf : wfFrom [] m.cmds = true)
     {before rest : List Command} {c : Command} {w : World} {log : List (Nat × Did)} (hat : At m.cmds before c rest)
     (h : Progress m (demanded m targets) E before w log) :
@@ -1337,7 +1538,8 @@ theorem Progress.step {m : Manifest} {targets : List Path} {E : Nat} (hwf : wfFr
   have hfr := stepCmd_frame m (demanded m targets) E before c w
   have hE := h.epoch
   subst hE
-  refine ⟨h.inv.step_cmd m hwf _ hat, hfr.epoch, fun p hp hn => by rw [hfr.srcDb]; exact h.srcs p hp hn, ?_, ?_⟩
+  refine ⟨h.inv.step_cmd m hwf _ hat, hfr.epoch, fun p hp hn => by rw [hfr.srcDb]; exact h.srcs p hp hn, ?_,
+    h.deps.step_cmd hat, ?_⟩
   · intro q hq hn
     rcases List.mem_cons.1 hq with rfl | hq
     · unfold stepCmd
@@ -1358,11 +1560,12 @@ theorem Progress.step {m : Manifest} {targets : List Path} {E : Nat} (hwf : wfFr
       simp only [Bool.and_eq_true] at hrun
       simp only [hrun.1, hrun.2, Bool.and_self, ↓reduceIte, OkLog, List.mem_singleton, Prod.mk.injEq, true_and] at hlog
       obtain ⟨r, hr, hb, _, hvalid⟩ := runTask_ok hat ⟨fun e => hlog.2.1 e.symm, fun e => hlog.2.2 e.symm⟩
+      have hdeps := runTask_deps (E := w.epoch) hat ⟨fun e => hlog.2.1 e.symm, fun e => hlog.2.2 e.symm⟩
       have hfr' := runTask_frame m before w.epoch q w
       unfold LLBuild.NinjaWorld.needsTask
-      rw [hr]
+      rw [hr, hdeps]
       simp only [Bool.or_eq_false_iff, bne_eq_false_iff_eq]
-      refine ⟨by rw [hfr'.cmdline]; exact hvalid, ?_⟩
+      refine ⟨⟨runTask_sig m before w.epoch q w r hr, by rw [hfr'.cmdline]; exact hvalid⟩, ?_⟩
       rw [triggers_storedDeps, List.any_eq_false]
       intro k hk
       have hkin := depKeys_sub_insAll q k hk
@@ -1384,7 +1587,7 @@ theorem Progress.step {m : Manifest} {targets : List Path} {E : Nat} (hwf : wfFr
     · rename_i hrun
       simp only [Bool.and_eq_true, not_and, Bool.not_eq_true] at hrun
       exact hrun hn
-  · rw [needsTask_frame_before hat hq hfr]
+  · rw [needsTask_frame_before hat hq hfr (h.deps q (hat.mem_before hq))]
     exact h.done q hq hn hlog.1
 
 /-! ### the state after a build -/
@@ -1464,7 +1667,39 @@ theorem refreshSrcs_post (cs : List Command) (E : Nat) : ∀ (ps : List Path) (w
 
 theorem started_srcs (m : Manifest) (targets : List Path) (w : World) :
     ∀ p ∈ demanded m targets, producer m.cmds p = none → SrcSettled (started m targets w) p :=
-  (refreshSrcs_post m.cmds _ _ _).2
+  fun p hp => (refreshSrcs_post m.cmds _ _ _).2 p (List.mem_append_left _ hp)
+
+theorem refreshSrc_rows (E : Nat) (p : Path) (w : World) :
+    (refreshSrc E p w).cmdDb = w.cmdDb ∧ (refreshSrc E p w).depDb = w.depDb ∧ (refreshSrc E p w).cmdline = w.cmdline := by
+  unfold refreshSrc
+  cases w.srcDb p with
+  | none => exact ⟨rfl, rfl, rfl⟩
+  | some r => simp only; split <;> exact ⟨rfl, rfl, rfl⟩
+
+theorem refreshSrcs_rows (cs : List Command) (E : Nat) : ∀ (ps : List Path) (w : World),
+    (refreshSrcs cs E ps w).cmdDb = w.cmdDb ∧ (refreshSrcs cs E ps w).depDb = w.depDb ∧
+    (refreshSrcs cs E ps w).cmdline = w.cmdline := by
+  intro ps
+  induction ps with
+  | nil => intro w; exact ⟨rfl, rfl, rfl⟩
+  | cons p ps ih =>
+    intro w
+    simp only [refreshSrcs]
+    split
+    · obtain ⟨a1, a2, a3⟩ := ih (refreshSrc E p w)
+      obtain ⟨b1, b2, b3⟩ := refreshSrc_rows E p w
+      exact ⟨a1.trans b1, a2.trans b2, a3.trans b3⟩
+    · exact ih w
+
+theorem DepsInv.of_rows {cs : List Command} {w w' : World} (h : DepsInv cs w) (h1 : w'.cmdDb = w.cmdDb) (h2 : w'.depDb = w.depDb)
+    (h3 : w'.cmdline = w.cmdline) : DepsInv cs w' :=
+  fun c hc => (h c hc).congr (by rw [h1]) (by rw [h2]) (by rw [h3])
+
+theorem DepsInv.started {m : Manifest} {w : World} (h : DepsInv m.cmds w) (targets : List Path) :
+    DepsInv m.cmds (LLBuild.NinjaWorld.started m targets w) := by
+  obtain ⟨a1, a2, a3⟩ := refreshSrcs_rows m.cmds (w.epoch + 1) (demanded m targets ++ storedKeys m (demanded m targets) w)
+    { w with epoch := w.epoch + 1 }
+  exact h.of_rows a1 a2 a3
 
 theorem started_files (m : Manifest) (targets : List Path) (w : World) : (started m targets w).files = w.files := by
   simp only [started, refreshSrcs_files]
@@ -1485,23 +1720,25 @@ theorem stepAll_sources (m : Manifest) (d : List Path) (E : Nat) (hwf : wfFrom [
     m.cmds [] w (by simp) ⟨rfl, fun _ _ => rfl, rfl, rfl⟩
   exact this
 
-theorem build_progress (m : Manifest) (hwf : wfFrom [] m.cmds = true) (targets : List Path) {w : World} (h : Inv0 m.cmds w) :
+theorem build_progress (m : Manifest) (hwf : wfFrom [] m.cmds = true) (targets : List Path) {w : World} (h : Inv0 m.cmds w)
+    (hd : DepsInv m.cmds w) :
     Progress m (demanded m targets) (w.epoch + 1) m.cmds.reverse (buildFull m targets w).1 (buildFull m targets w).2 := by
   obtain ⟨h1, h2⟩ := h.started m targets
   have h0 : Progress m (demanded m targets) (w.epoch + 1) [] (started m targets w) [] :=
     ⟨h1, h2, fun p hp hn => by obtain ⟨r, hr, _⟩ := started_srcs m targets w p hp hn; exact ⟨r, hr⟩,
-     (fun q hq => by cases hq), (fun q hq => by cases hq)⟩
+     (fun q hq => by cases hq), hd.started targets, (fun q hq => by cases hq)⟩
   have := stepAll_induct m (demanded m targets) (w.epoch + 1) hwf (Progress m (demanded m targets) (w.epoch + 1))
     (fun before c rest w' log hat hp => hp.step hwf hat) m.cmds [] (started m targets w) [] (by simp) h0
   simpa [buildFull_eq] using this
 
 /-- after any build, every demanded source has an up-to-date input rule and every needed command that the log does not
 report as failed or skipped does not need its task -/
-theorem build_quiet_cmd (m : Manifest) (hwf : wfFrom [] m.cmds = true) (targets : List Path) {w : World} (h : Inv0 m.cmds w) :
+theorem build_quiet_cmd (m : Manifest) (hwf : wfFrom [] m.cmds = true) (targets : List Path) {w : World} (h : Inv0 m.cmds w)
+    (hd : DepsInv m.cmds w) :
     (∀ p ∈ demanded m targets, producer m.cmds p = none → SrcSettled (buildFull m targets w).1 p) ∧
     (∀ c ∈ m.cmds, c.neededIn (demanded m targets) = true → OkLog (buildFull m targets w).2 c.name →
       needsTask m.cmds (buildFull m targets w).1 c = false) := by
-  refine ⟨fun p hp hn => ?_, fun c hc hn hl => (build_progress m hwf targets h).done c (by simpa using hc) hn hl⟩
+  refine ⟨fun p hp hn => ?_, fun c hc hn hl => (build_progress m hwf targets h hd).done c (by simpa using hc) hn hl⟩
   have hs := stepAll_sources m (demanded m targets) (w.epoch + 1) hwf (started m targets w)
   rw [buildFull_eq]
   exact (started_srcs m targets w p hp hn).of_eq (by rw [hs.1]) (hs.2.1 p hn)
@@ -1509,9 +1746,41 @@ theorem build_quiet_cmd (m : Manifest) (hwf : wfFrom [] m.cmds = true) (targets 
 /-- after a build that reports no failure, every demanded source has an up-to-date input rule and no needed
 command needs its task -/
 theorem build_quiet (m : Manifest) (hwf : wfFrom [] m.cmds = true) (targets : List Path) {w : World} (h : Inv0 m.cmds w)
-    (hok : buildFailed (buildFull m targets w).2 = false) :
+    (hd : DepsInv m.cmds w) (hok : buildFailed (buildFull m targets w).2 = false) :
     (∀ p ∈ demanded m targets, producer m.cmds p = none → SrcSettled (buildFull m targets w).1 p) ∧
     (∀ c ∈ m.cmds, c.neededIn (demanded m targets) = true → needsTask m.cmds (buildFull m targets w).1 c = false) :=
-  ⟨(build_quiet_cmd m hwf targets h).1, fun c hc hn => (build_quiet_cmd m hwf targets h).2 c hc hn (okLog_of_not_failed hok _)⟩
+  ⟨(build_quiet_cmd m hwf targets h hd).1, fun c hc hn => (build_quiet_cmd m hwf targets h hd).2 c hc hn (okLog_of_not_failed hok _)⟩
+
+/-- the stored dependency lists stay the recorded ones through a build -/
+theorem DepsInv.build {m : Manifest} (hwf : wfFrom [] m.cmds = true) (targets : List Path) {w : World} (h : Inv0 m.cmds w)
+    (hd : DepsInv m.cmds w) : DepsInv m.cmds (buildFull m targets w).1 :=
+  (build_progress m hwf targets h hd).deps
+
+/-- the keys of a recorded dependency list are inputs of the statement -/
+theorem storedDeps_keys (c : Command) : ∀ e ∈ storedDeps c, e.key ∈ insAll c := by
+  intro e he
+  have hreq : ∀ e ∈ requestDeps (⟨c.exp, c.imp, c.oo⟩ : Inputs Path), e.key ∈ c.exp ++ c.imp ++ c.oo := by
+    intro e he
+    simp only [requestDeps, requests, List.mem_map, List.mem_append] at he
+    obtain ⟨x, hx, rfl⟩ := he
+    simp only [List.mem_append]
+    rcases hx with (⟨k, hk, rfl⟩ | ⟨k, hk, rfl⟩) | ⟨k, hk, rfl⟩
+    · exact Or.inl (Or.inl hk)
+    · exact Or.inl (Or.inr hk)
+    · exact Or.inr hk
+  simp only [storedDeps, dependencyList, List.mem_append] at he
+  simp only [insAll, List.mem_append]
+  rcases he with he | he
+  · have := hreq e he
+    simp only [List.mem_append] at this
+    exact Or.inl this
+  · cases hd : c.hasDeps with
+    | false => simp [discovered, Command.cmd, hd] at he
+    | true =>
+      simp only [discovered, Command.cmd, hd, ↓reduceIte, List.mem_map, List.mem_filter, List.mem_filterMap, id] at he
+      obtain ⟨k, ⟨⟨o, ho, hok⟩, _⟩, rfl⟩ := he
+      obtain ⟨k', hk', rfl⟩ := ho
+      cases hok
+      exact Or.inr hk'
 
 end LLBuild.NinjaWorld
